@@ -476,11 +476,11 @@ theorem raceInv_step (st : RaceState) (ev : RaceEv) (h : RaceInv st) : RaceInv (
       refine ⟨?_, ?_, ?_⟩
       · simp [okAll, List.filter_append] at h1 ⊢; rw [← List.append_assoc, h1]
       · intro _; simpa using h2 ha
-      · intro hf; simp [ha] at hf
+      · intro hf; simp at hf
     | false =>
       refine ⟨?_, ?_, ?_⟩
       · simp [okAll, List.filter_append] at h1 ⊢; exact h1
-      · intro hf; simp [ha] at hf
+      · intro hf; simp at hf
       · intro _; simpa using h3 ha
   | detach =>
     simp only [raceStep]
@@ -524,7 +524,7 @@ theorem okOf_eq (trace : List (Nat × Nat × Bool)) (t : Nat) :
   | cons x rest ih =>
     obtain ⟨a, b, ok⟩ := x
     simp only [okOf, okAll] at ih ⊢
-    cases ok <;> by_cases h : a = t <;> simp_all [List.filter_cons]
+    cases ok <;> by_cases h : a = t <;> simp_all
 
 /-- **C17 racing detach: exactly one place.** For every interleaving of `try_append`s (any threads,
 any entries) with the drop of the attach handle: once the drop has happened the stream is closed,
